@@ -360,7 +360,7 @@ class ArMember(object):
         return lines
 
     def seek(self, offset, whence=0):
-        # type: (int, int) -> None
+        # type: (int, int) -> int
         if self.__cur < self.__offset:
             self.__cur = self.__offset
 
@@ -373,6 +373,7 @@ class ArMember(object):
             self.__cur = self.__offset + offset
         elif whence == 2:
             self.__cur = self.__end + offset
+        return self.tell()
 
     def tell(self):
         # type: () -> int
